@@ -104,6 +104,32 @@ def build_program(form, o, i, n, names, uva, uvk, partial, emulate):
                'class Sub(Base):\n'
                '    def wrapper(%s):\n        return %s\n') % (params_src(si), da, params_src(so), body)
         return src, lambda ns: {'Sub().wrapper': ns['Sub']().wrapper}
+    if form == 'apply_super_kwo':
+        # the declared method is ALSO decorated with a modifier (its keyword-only parameter `e` is written
+        # as a positional-or-keyword one and converted by modifiers.kwoargs): the object the forger is
+        # handed is a modifiers translator, not a plain bound method
+        body = 'functools.partial(super(Sub, self).wrapper, %s)' % ca if partial else 'super(Sub, self).wrapper(%s)' % ca
+        da = ', '.join(["'wrapper'", 'num_args=%d' % n, 'named_args=%r' % (tuple(name_of(k) for k in names),),
+                        'use_varargs=%s' % uva, 'use_varkwargs=%s' % uvk] + (['partial=True'] if partial else []))
+        conv = id_of_name('e')
+        written, placed = [], False
+        for q in so['params']:
+            if q[0] == conv:
+                continue
+            if not placed and q[1] not in ('PO', 'PK'):
+                written.append(mk_param(conv, 'PK', 1))
+                placed = True
+            written.append(q)
+        if not placed:
+            written.append(mk_param(conv, 'PK', 1))
+        src = ('import functools\nimport sigtools.modifiers\nfrom sigtools.specifiers import *\n'
+               'class Base(object):\n' + falsy +
+               '    def wrapper(%s):\n        return None\n'
+               '@apply_forwards_to_super(%s)\n'
+               'class Sub(Base):\n'
+               "    @sigtools.modifiers.kwoargs('e')\n"
+               '    def wrapper(%s):\n        return %s\n') % (params_src(si), da, params_src(mk_desc(written, 100)), body)
+        return src, lambda ns: {'Sub().wrapper': ns['Sub']().wrapper}
     if form == 'apply_super_shared':
         # ONE decorator object applied to two unrelated classes: each gets forgers for itself
         body1 = 'functools.partial(super(Sub, self).wrapper, %s)' % ca if partial else 'super(Sub, self).wrapper(%s)' % ca
@@ -194,6 +220,14 @@ def program_checks(ctx, rep):
         partial = rng.random() < 0.15
         emulate = rng.random() < 0.3
         form = rng.choice(['function', 'function', 'method', 'super', 'apply_super', 'apply_super_shared'])
+        if form == 'apply_super' and rng.random() < 0.35:
+            # the same declaration on a method that a modifier converts: the wrapper advertises a
+            # keyword-only parameter `e` (default 1) more
+            ps = list(o['params'])
+            kpos = len(ps) - (1 if ps and ps[-1][1] == 'VK' else 0)
+            ps.insert(kpos, mk_param(id_of_name('e'), 'KO', 1))
+            o = mk_desc(ps, 100)
+            form = 'apply_super_kwo'
         if rng.random() < 0.2:
             # descriptor placements other than a plain method: only the wrapper strategy (emulate=True)
             # can carry a forger on top of a classmethod / staticmethod object
